@@ -230,6 +230,7 @@ impl Token {
         sn.rw('R4', r'self\.str_cache\.get\(cont\)', 'w_cache_get(&self.str_cache, cont)', expect=1)
         sn.rw('R4', r'cont\.chars\(\)\.count\(\)', 'w_chars_count(&cont)', expect=1)
         sn.rw('R4', r'cont\.lines\(\)\.count\(\)', 'w_lines_count(&cont)')
+        sn.rw('R4', r"cont\.matches\('\\n'\)\.count\(\)", 'w_newline_count(&cont)', code_only=False)
     add('emit_singleline_token', """requires old(self).col_token_starts + cont@.len() <= 0x7FFF_FFFF, old(self).lineno_token_starts < u32::MAX,
     ensures res.kind == kind, res.content@ == cont@,
         res.lineno == old(self).lineno_token_starts + 1, res.col_begin == old(self).col_token_starts,   // the token is reported where it begins
